@@ -176,6 +176,11 @@ func calcPartialCompactionStart(slocs SegmentLocs, newDataSize uint64,
 	if levelMultiplier == 0 {
 		levelMultiplier = DefaultStoreOptions.CompactionLevelMultiplier
 	}
+	if levelMultiplier < 2 {
+		// Levels have to grow: with a factor of 1 (or less) the loop in
+		// determineExponent below would never leave its level.
+		levelMultiplier = 2
+	}
 
 	if newDataSize == 0 { // Idle compaction => attempt full compaction.
 		return 0, true
